@@ -13,7 +13,7 @@ package revocation
 //@ func parseMode
 //@   props C03 C19
 //@   requires revocationValidator != nil
-//@   assigns CertRevocationValidator.ModeParsed
+//@   assigns revocation.CertRevocationValidator.ModeParsed
 //@   ensures accept: knownMode(old(revocationValidator.Mode)) ==> err == nil
 //@   ensures reject: !knownMode(old(revocationValidator.Mode)) ==> err != nil
 //@   ensures table: err == nil ==> revocationValidator.ModeParsed == modeOf(old(revocationValidator.Mode))
@@ -35,9 +35,11 @@ package revocation
 //@   props C01 C02 C03
 //@   requires c != nil
 //@   requires chains_nonempty: forall k int :: 0 <= k && k < len(verifiedChains) ==> len(verifiedChains[k]) > 0 && verifiedChains[k][0] != nil
-//@   requires provisioned_ocsp: ocspEnabled(c.ModeParsed) ==> c.ocspRevocationChecker != nil
-//@   requires provisioned_crl: crlEnabled(c.ModeParsed) ==> c.crlRevocationChecker != nil
-//@   assigns ocsp.OCSPRevocationChecker.cache, X.cache2go, X.net, X.crlrepo, X.fs
+//@   requires provisioned_ocsp: ocspEnabled(c.ModeParsed) ==> c.ocspRevocationChecker != nil && ocspOK(c.ocspRevocationChecker)
+//@   requires provisioned_crl: crlEnabled(c.ModeParsed) ==> c.crlRevocationChecker != nil && checkerOK(c.crlRevocationChecker)
+//@   requires tls_chains_are_parsed_certificates: chainsNonNil(verifiedChains)
+//@   requires handshake_holds_no_locks: norwlocks()
+//@   assigns *
 //@   ensures[C03] ocsp_only_if_enabled: called(OCSPRevocationChecker.IsRevoked#1) ==> ocspEnabled(old(c.ModeParsed))
 //@   ensures[C03] crl_only_if_enabled: called(CRLRevocationChecker.IsRevoked#1) ==> crlEnabled(old(c.ModeParsed))
 //@   ensures[C03] ocsp_consulted: len(verifiedChains) > 0 && ocspEnabled(old(c.ModeParsed)) ==> called(OCSPRevocationChecker.IsRevoked#1)
@@ -47,3 +49,164 @@ package revocation
 //@   ensures[C01,C03] crl_reject: called(CRLRevocationChecker.IsRevoked#1) && (res(CRLRevocationChecker.IsRevoked#1, 1) != nil || res(CRLRevocationChecker.IsRevoked#1, 0).Revoked) ==> ret != nil
 //@   ensures[C03] accept_otherwise: !(called(OCSPRevocationChecker.IsRevoked#1) && (res(OCSPRevocationChecker.IsRevoked#1, 1) != nil || res(OCSPRevocationChecker.IsRevoked#1, 0).Revoked)) && !(called(CRLRevocationChecker.IsRevoked#1) && (res(CRLRevocationChecker.IsRevoked#1, 1) != nil || res(CRLRevocationChecker.IsRevoked#1, 0).Revoked)) ==> ret == nil
 //@   ensures[C03] no_chain_accepts: len(verifiedChains) == 0 ==> ret == nil
+
+// ---- provisioning and configuration (C03 C16 C19)
+
+//@ spec func modeParsed(c ref) bool = knownMode(c.Mode) && c.ModeParsed == modeOf(c.Mode)
+//@ spec func sigModeOf(s string) int = ite(s == "none", config.SignatureValidationModeNone, ite(s == "verify_log", config.SignatureValidationModeVerifyLog, config.SignatureValidationModeVerify))
+//@ spec func knownSigMode(s string) bool = s == "" || s == "none" || s == "verify_log" || s == "verify"
+
+//@ func ParseConfig
+//@   props C03 C19 C16
+//@   requires certRevocationValidator != nil && certRevocationValidator.logger != nil
+//@   requires certRevocationValidator.CRLConfig != nil ==> crlConfigFieldsOK(certRevocationValidator.CRLConfig)
+//@   assigns revocation.CertRevocationValidator.ModeParsed, revocation.CertRevocationValidator.OCSPConfig, H.config.CRLConfig, H.config.CDPConfig, H.config.OCSPConfig, fresh:E.*x509.Certificate, X.fs
+//@   ensures[C03,C19] mode_is_parsed: err == nil ==> modeParsed(certRevocationValidator)
+//@   ensures[C19] ocsp_config_exists: err == nil ==> certRevocationValidator.OCSPConfig != nil && certsNonNil(certRevocationValidator.OCSPConfig.TrustedResponderCerts)
+//@   ensures[C19] crl_config_parsed: err == nil && certRevocationValidator.CRLConfig != nil ==> certRevocationValidator.CRLConfig.CDPConfig != nil && certsNonNil(certRevocationValidator.CRLConfig.TrustedSignatureCerts)
+//@   ensures err == nil ==> certRevocationValidator.logger == old(certRevocationValidator.logger) && certRevocationValidator.crlRevocationChecker == old(certRevocationValidator.crlRevocationChecker) && certRevocationValidator.ocspRevocationChecker == old(certRevocationValidator.ocspRevocationChecker) && certRevocationValidator.CRLConfig == old(certRevocationValidator.CRLConfig)
+
+//@ spec func crlConfigFieldsOK(c ref) bool = c != nil
+
+//@ func parseCDPConfig
+//@   props C19
+//@   requires cdpConfig != nil
+//@   assigns config.CDPConfig.CRLFetchModeParsed
+//@   ensures[C19] default_is_active_fetch: old(cdpConfig.CRLFetchMode) == "" ==> err == nil && cdpConfig.CRLFetchModeParsed == config.CRLFetchModeActively
+//@   ensures[C19] table: err == nil ==> (old(cdpConfig.CRLFetchMode) == "fetch_background" ==> cdpConfig.CRLFetchModeParsed == config.CRLFetchModeBackground) && (old(cdpConfig.CRLFetchMode) == "fetch_actively" ==> cdpConfig.CRLFetchModeParsed == config.CRLFetchModeActively)
+//@   ensures[C19] unknown_rejected: (err == nil) == (old(cdpConfig.CRLFetchMode) == "" || old(cdpConfig.CRLFetchMode) == "fetch_actively" || old(cdpConfig.CRLFetchMode) == "fetch_background")
+//@   ensures cdpConfig.CRLCDPStrict == old(cdpConfig.CRLCDPStrict)
+
+//@ func parseSignatureValidationMode
+//@   props C16 C19
+//@   requires crlCfg != nil
+//@   assigns config.CRLConfig.SignatureValidationModeParsed
+//@   ensures[C16,C19] unset_means_verify: old(crlCfg.SignatureValidationMode) == "" ==> err == nil && crlCfg.SignatureValidationModeParsed == config.SignatureValidationModeVerify
+//@   ensures[C16,C19] table: err == nil ==> crlCfg.SignatureValidationModeParsed == sigModeOf(old(crlCfg.SignatureValidationMode))
+//@   ensures[C16,C19] unknown_rejected: (err == nil) == knownSigMode(old(crlCfg.SignatureValidationMode))
+
+//@ func parseStorageType
+//@   props C19
+//@   requires crlCfg != nil
+//@   assigns config.CRLConfig.StorageTypeParsed
+//@   ensures[C19] default_is_disk: old(crlCfg.StorageType) == "" ==> err == nil && crlCfg.StorageTypeParsed == config.Disk
+//@   ensures[C19] table: err == nil ==> (old(crlCfg.StorageType) == "memory" ==> crlCfg.StorageTypeParsed == config.Memory) && (old(crlCfg.StorageType) == "disk" ==> crlCfg.StorageTypeParsed == config.Disk)
+//@   ensures[C19] unknown_rejected: (err == nil) == (old(crlCfg.StorageType) == "" || old(crlCfg.StorageType) == "memory" || old(crlCfg.StorageType) == "disk")
+
+//@ func parseUpdateInterval
+//@   props C19 C15
+//@   requires config != nil
+//@   assigns config.CRLConfig.UpdateIntervalParsed
+//@   ensures[C19,C15] default_is_30_minutes: old(config.UpdateInterval) == "" ==> err == nil && config.UpdateIntervalParsed == 1800000000000
+//@   ensures[C19] parsed: err == nil && old(config.UpdateInterval) != "" ==> config.UpdateIntervalParsed == durationOf(old(config.UpdateInterval))
+//@   ensures[C19,C15] interval_is_usable: err == nil ==> config.UpdateIntervalParsed > 0
+
+//@ func parseDefaultCacheDuration
+//@   props C19 C14
+//@   requires ocspConfig != nil
+//@   assigns config.OCSPConfig.DefaultCacheDurationParsed
+//@   ensures[C19,C14] default_is_zero: old(ocspConfig.DefaultCacheDuration) == "" ==> err == nil && ocspConfig.DefaultCacheDurationParsed == 0
+
+//@ func parseCertFromFile
+//@   props C19
+//@   assigns X.fs
+//@   ensures err == nil ==> ret != nil && ret.SerialNumber != nil && ret.Raw != nil
+
+//@ func parseTrustedCrlSignerCerts
+//@   props C19
+//@   requires crlConfig != nil
+//@   assigns config.CRLConfig.TrustedSignatureCerts, X.fs, fresh:E.*x509.Certificate
+//@   ensures err == nil ==> certsNonNil(crlConfig.TrustedSignatureCerts)
+//@   loop 1 invariant crlConfig != nil && certsNonNil(crlConfig.TrustedSignatureCerts) && fresh(crlConfig.TrustedSignatureCerts)
+
+//@ func parseTrustedOcspResponderCerts
+//@   props C19
+//@   requires ocspConfig != nil
+//@   assigns config.OCSPConfig.TrustedResponderCerts, X.fs, fresh:E.*x509.Certificate
+//@   ensures err == nil ==> certsNonNil(ocspConfig.TrustedResponderCerts)
+//@   loop 1 invariant ocspConfig != nil && certsNonNil(ocspConfig.TrustedResponderCerts) && fresh(ocspConfig.TrustedResponderCerts)
+
+//@ func parseCRLConfig
+//@   props C19 C16
+//@   requires crlConfig != nil
+//@   assigns config.CRLConfig.SignatureValidationModeParsed, config.CRLConfig.StorageTypeParsed, config.CRLConfig.UpdateIntervalParsed, config.CRLConfig.TrustedSignatureCerts, config.CRLConfig.CDPConfig, config.CDPConfig.CRLFetchModeParsed, X.fs, fresh:E.*x509.Certificate
+//@   ensures err == nil ==> crlConfig.CDPConfig != nil && certsNonNil(crlConfig.TrustedSignatureCerts) && crlConfig.UpdateIntervalParsed > 0
+//@   ensures[C19] absent_cdp_block_means_active_lenient: err == nil && old(crlConfig.CDPConfig) == nil ==> crlConfig.CDPConfig.CRLFetchModeParsed == config.CRLFetchModeActively && !crlConfig.CDPConfig.CRLCDPStrict
+
+//@ func parseOCSPConfig
+//@   props C19
+//@   requires ocspConfig != nil
+//@   assigns config.OCSPConfig.DefaultCacheDurationParsed, config.OCSPConfig.TrustedResponderCerts, X.fs, fresh:E.*x509.Certificate
+//@   ensures err == nil ==> certsNonNil(ocspConfig.TrustedResponderCerts)
+
+//@ func validateConfig
+//@   props C19 C03
+//@   requires c != nil
+//@   requires[C19] mode_parsed: modeParsed(c)
+//@   pure
+//@   ensures[C19,C03] no_crl_demands_without_crl_mode: !crlEnabled(c.ModeParsed) ==> err == nil
+//@   ensures err == nil && crlEnabled(c.ModeParsed) ==> c.CRLConfig != nil
+
+//@ func CertRevocationValidator.Provision
+//@   props C03 C19 C15
+//@   requires c != nil && nolocks()
+//@   requires freshly_constructed_module: c.ModeParsed == 0
+//@   assigns *
+//@   ensures[C03] provisioned: err == nil ==> (crlEnabled(c.ModeParsed) ==> c.crlRevocationChecker != nil && checkerOK(c.crlRevocationChecker)) && c.ocspRevocationChecker != nil && ocspOK(c.ocspRevocationChecker) && modeParsed(c)
+
+//@ func CertRevocationValidator.Cleanup
+//@   props C20
+//@   requires c != nil && nolocks() && c.ocspRevocationChecker != nil && (crlEnabled(c.ModeParsed) ==> c.crlRevocationChecker != nil && (c.crlRevocationChecker.crlRepository != nil ==> repoOK(c.crlRevocationChecker.crlRepository)))
+//@   assigns *
+
+//@ func CertRevocationValidator.UnmarshalCaddyfile
+//@   props C19
+//@   requires c != nil && d != nil
+//@   assigns *
+
+// ---- Caddyfile adapter (C19)
+
+//@ func parseConfigFromCaddyfile
+//@   props C19
+//@   requires d != nil
+//@   assigns X.dval, H.config.CRLConfig, H.config.CDPConfig, H.config.OCSPConfig, E.string
+//@   ensures err == nil ==> ret != nil
+
+//@ func parseConfigEntryFromCaddyfile
+//@   props C19
+//@   requires d != nil
+//@   assigns X.dval, H.config.CRLConfig, H.config.CDPConfig, H.config.OCSPConfig, E.string
+//@   ensures[C19] mode_option_is_recorded: key == "mode" && !r2 ==> certRevocationValidatorConfig.Mode == $dval[d]
+//@   ensures[C19] crl_block_is_recorded: key == "crl_config" && !r2 ==> called(parseCaddyfileCRLConfig#1) && certRevocationValidatorConfig.CRLConfig == res(parseCaddyfileCRLConfig#1, 0)
+//@   ensures[C19] ocsp_block_is_recorded: key == "ocsp_config" && !r2 ==> called(parseCaddyfileOCSPConfig#1) && certRevocationValidatorConfig.OCSPConfig == res(parseCaddyfileOCSPConfig#1, 0)
+//@   ensures r2 ==> r1 != nil
+//@   ensures[C19] unknown_key_rejected: key != "mode" && key != "crl_config" && key != "ocsp_config" ==> r2 && r1 != nil
+
+//@ func parseCaddyFileCrlConfigEntry
+//@   props C19
+//@   requires d != nil
+//@   assigns X.dval, H.config.CDPConfig, E.string
+//@   ensures r2 ==> r1 != nil
+//@   ensures[C19] work_dir_is_recorded: old($dval[d]) == "work_dir" && !r2 ==> crlConfig.WorkDir == $dval[d]
+//@   ensures[C19] storage_type_is_recorded: old($dval[d]) == "storage_type" && !r2 ==> crlConfig.StorageType == $dval[d]
+
+//@ func parseCaddyfileCRLConfig
+//@   props C19
+//@   requires d != nil
+//@   assigns X.dval, H.config.CDPConfig, E.string
+//@   ensures err == nil ==> ret != nil
+
+//@ func parseCaddyfileOCSPConfig
+//@   props C19
+//@   requires d != nil
+//@   assigns X.dval, E.string
+//@   ensures err == nil ==> ret != nil
+//@   loop 1 iter_ensures[C19] strict_flag_is_parsed: res(Dispenser.Val#1) == "ocsp_aia_strict" ==> ocspConfig.OCSPAIAStrict == boolOf($dval[d])
+//@   loop 1 iter_ensures[C19] only_known_keys_pass: res(Dispenser.Val#1) == "default_cache_duration" || res(Dispenser.Val#1) == "trusted_responder_cert_file" || res(Dispenser.Val#1) == "ocsp_aia_strict"
+
+//@ func parseCaddyfileCRLCDPConfig
+//@   props C19
+//@   requires d != nil
+//@   assigns X.dval
+//@   ensures err == nil ==> ret != nil
+//@   loop 1 iter_ensures[C19] only_known_keys_pass: res(Dispenser.Val#1) == "crl_fetch_mode" || res(Dispenser.Val#1) == "crl_cdp_strict"
